@@ -29,7 +29,7 @@ CLAIMED = {
             "Trusted: std::sync::Arc, triomphe::Arc. Decides the protocol on all CFG paths; does not count leaks at run time.",
             "unsafe inventory + count-lattice pairing + access-path provenance over rustc MIR/HIR; compile_fail witnesses", True),
     "C31": ("other",
-            "The id handed out is the return value of one atomic fetch_add (a fact about all interleavings), bit structure of pack/tag/file_id with const-evaluated masks, inventory of statics (no static mut, only atomics/OnceLock caches whose initialisers cannot reach the counter), and the deep interior-mutability walk from Schema/ExecutableDocument; thorough tier adds Send/Sync and E0596 witnesses.",
+            "The id handed out is the return value of one atomic fetch_add (a fact about all interleavings), bit structure of pack/tag/file_id with const-evaluated masks, the Name tag/pointer representation table shared with C30 (every writer of the packed word keeps the tag that matches the pointer kind), inventory of statics (no static mut, only atomics/OnceLock caches whose initialisers cannot reach the counter), and the deep interior-mutability walk from Schema/ExecutableDocument; thorough tier adds Send/Sync and E0596 witnesses.",
             "Assumes std atomics are atomic; uniqueness holds until the 63-bit counter wraps (reset edge), as the property states.",
             "who-calls + provenance of a single atomic RMW, const evaluation, type-structure walk (rustc facts); compile_fail witnesses", True),
     "C22": ("other",
@@ -41,7 +41,7 @@ CLAIMED = {
             "Decides the mechanism that makes the verdict fragment-independent; the set of list-valued fields is compared with the property's list.",
             "comparator normalisation + must-pass-through per match arm + symbolic provenance over rustc MIR", False),
     "C27": ("other",
-            "Closed allow-list of async primitives over all resolved call sites (no combinator that polls two futures, no manual Future impl, no hand-written poll), shared executor path for sync and async, and await-inside-loop order over the document-ordered IndexMap: a fact about every schedule.",
+            "Closed allow-list of async primitives over all resolved call sites (no combinator that polls two futures, no manual Future impl, no hand-written poll), shared executor path for sync and async, now_or_never only in execute_sync (a polled-once-then-called-again resolver would make side effects schedule-dependent), and await-inside-loop order over the document-ordered IndexMap: a fact about every schedule.",
             "futures::StreamExt::next / now_or_never / stream::iter are trusted to poll exactly their one underlying future/stream.",
             "who-calls allow-list over resolved callees (MIR) + HIR await-in-loop structure + call-graph facts", False),
     "C29": ("proof",
@@ -109,7 +109,7 @@ CLAIMED = {
             "The validity guarantees of the statement (acyclic spreads, defined variables, leaf/composite selections) are validation verdicts and are not decided, except the memo-scope condition that makes `every used variable is defined` hold for fragments shared between operations.",
             "local-identity provenance over typed HIR, decision tables from MIR path enumeration, dominating-edge facts, who-writes on a struct field", False),
     "C11": ("other",
-            "Location provenance of the CST->AST conversion (only location-carrying constructors; at all 28 with_location sites the syntax node and the converted value come from the same CST node; the conversion's own file id), the Name span (NAME node, first token text; start offset and tag-preserving file id stored; location() rebuilt from them), the unit of LineColumn.column (must derive from a character count, not from a byte offset - the byte-column defect was found by this rule and repaired), the separator set of the line counter (not ariadne's seven-separator table; the CRLF look-ahead reads the whole source text rather than the prefix cut at the offset; only LF and CR are compared - also found and repaired), and the source of JSON error locations.",
+            "Location provenance of the CST->AST conversion (only location-carrying constructors; at all 28 with_location sites the syntax node and the converted value come from the same CST node; the conversion's own file id), the Name span (NAME node, first token text; start offset and tag-preserving file id stored; location() rebuilt from them), the unit of LineColumn.column (must derive from a character count, not from a byte offset - the byte-column defect was found by this rule and repaired), the separator set of the line counter (not ariadne's seven-separator table; the CRLF look-ahead reads the whole source text rather than the prefix cut at the offset; only LF and CR are compared - also found and repaired), the source of JSON error locations, and that the text the parser runs on is the same parameter the SourceFile stores (offsets index the text that is kept).",
             "Decides provenance and units, not the numeric values of positions. Later stages (schema/executable) clone the located nodes; that they do is not re-derived.",
             "access-path provenance over rustc MIR (symbolic operands), who-calls on location-less constructors, backward may-derive slice for units and line separators", False),
     "C17": ("other",
